@@ -45,9 +45,9 @@ type Outcome struct {
 	// Gap: the oracle could not decide this case (reported as infrastructure error).
 	Gap string `json:"gap,omitempty"`
 	// Counters for model-checking style checks (summed into evidence).
-	States      int `json:"states,omitempty"`
-	Transitions int `json:"transitions,omitempty"`
-	Traces      int `json:"traces,omitempty"`
+	States      int  `json:"states,omitempty"`
+	Transitions int  `json:"transitions,omitempty"`
+	Traces      int  `json:"traces,omitempty"`
 	Capped      bool `json:"capped,omitempty"`
 	// Extra: free-form sub-counters summed by key.
 	Extra map[string]int `json:"extra,omitempty"`
@@ -72,7 +72,9 @@ type WorkerIniter interface{ InitWorker() }
 type Timeouter interface{ CaseTimeout() time.Duration }
 type Parallelism interface{ Workers(tier string) int }
 type BinaryChooser interface{ Binary() string } // "", "ov"
-type Bounder interface{ Bounds(tier string) map[string]interface{} }
+type Bounder interface {
+	Bounds(tier string) map[string]interface{}
+}
 type Finisher interface {
 	// Finish runs on the master after all cases; may add violations (cross-case oracles).
 	Finish(tier string, outs []Outcome) []Outcome
@@ -83,7 +85,7 @@ var registry = map[string]Prop{}
 // Subcommands: extra internal sub-commands of the binary (name -> handler).
 var Subcommands = map[string]func(args []string){}
 
-func Register(p Prop) { registry[p.ID()] = p }
+func Register(p Prop)    { registry[p.ID()] = p }
 func Get(id string) Prop { return registry[id] }
 func IDs() []string {
 	var r []string
